@@ -138,7 +138,8 @@ def gen_plan(rng, tier='quick', config='B', traces=None, boost=()):
             elif f == 'REFILL':
                 # the caller reads the next trace into the same buffer (same object, same address) and starts over
                 # with new caches: anything keyed on the identity of the array is now stale
-                steps.append({'s': s, 'op': 'REFILL', 'factor': fhex(rng.choice([0.5, 2.0, 3.0, 1.5])), 'flip': rng.random() < 0.4})
+                steps.append({'s': s, 'op': 'REFILL', 'factor': fhex(rng.choice([0.5, 2.0, 3.0, 1.5])), 'flip': rng.random() < 0.4,
+                              'shift_x': rng.random() < 0.3})
                 snaps[s] = 0
                 last_q.pop(s, None)
             elif f == 'EVICT':
@@ -152,8 +153,11 @@ def gen_plan(rng, tier='quick', config='B', traces=None, boost=()):
         r = rng.random()
         if r < mip_rate and n >= 3:
             R = cur[s] if len(cur[s]) > 2 else _move(rng, n, cur[s], 'refine')
-            if len(R) > 32:      # MIP costs one evaluation per interior breakpoint (and the oracle as many again)
-                R = sorted([R[0], R[-1]] + rng.sample(R[1:-1], 30))
+            cap = 30 if rng.random() < 0.85 else 150
+            if len(R) > cap + 2:      # MIP costs one evaluation per interior breakpoint (and the oracle as many again)
+                R = sorted([R[0], R[-1]] + rng.sample(R[1:-1], cap))
+            elif cap == 150 and n > 70 and len(R) < 70:
+                R = sorted(set(R) | set(rng.sample(range(1, n - 1), min(n - 2, rng.randint(66, 140)))))
             if len(R) > 2:
                 steps.append({'s': s, 'op': 'MIP', 'R': list(R), 'rt': rng.choice(['nd', 'nd', 'nd32', 'nd16', 'nd8', 'list'])})
                 prev_kind = 'MIP'
@@ -198,6 +202,16 @@ def _libs():
 
 def _val(v):
     return fbits(v)
+
+
+def _number(v):
+    """The library's return value as a float, or None if it is not a real number (None, an array, a string...)."""
+    try:
+        if isinstance(v, (bool, str, bytes)) or v is None:
+            return None
+        return float(v)
+    except Exception:
+        return None
 
 
 class _Sess(object):
@@ -274,8 +288,28 @@ def _valid_R(R, n, minlen):
 def _try(f, *a):
     try:
         return ('ok', f(*a))
-    except Exception as e:  # noqa
+    except BaseException as e:  # noqa  (SystemExit / KeyboardInterrupt raised by the library are its failure, not ours)
         return ('exc', type(e).__name__ + ': ' + str(e)[:200])
+
+
+def _qcall(ev, metrics, sess, R, rt, cache_kind):
+    """One query under the step budget.  ('ok', value) | ('exc', text).  A value that is not a number, a call that
+    does not finish within the budget and a call that changes the caller's curve are reported as 'exc' texts
+    (the definition promises a number for this input and the evaluator has no business writing to the curve)."""
+    from . import budget
+    r = _try(budget.run, budget.limit_for(len(sess.points)) + 50 * len(R), _call, ev, metrics, sess, R, rt, cache_kind)
+    if r[0] == 'exc':
+        return r
+    st, v = r[1]
+    if st == 'diverged':
+        return ('exc', 'did not finish within the step budget')
+    if _number(v) is None:
+        return ('exc', 'returned %s instead of a number' % type(v).__name__)
+    if not np.array_equal(sess.points, sess.orig):
+        bad = int(np.sum(sess.points != sess.orig))
+        sess.points[...] = sess.orig          # put the caller's curve back so that later steps mean what the plan says
+        return ('exc', 'the evaluator changed %d value(s) of the curve it was given' % bad)
+    return ('ok', v)
 
 
 def _cache_sig(cache):
@@ -301,10 +335,12 @@ def execute(plan, stats=None, check=True, want_events=True):
     for c, arr in zip(plan['pool'], pool):
         if c.get('readonly'):
             arr.flags.writeable = False
+    origs = [a.copy() for a in pool]      # what each curve buffer is supposed to hold (updated by REFILL)
     sessions = []
     for sd in plan['sessions']:
         s = _Sess()
         s.points = pool[sd['curve']]
+        s.orig = origs[sd['curve']]
         s.curve = sd['curve']
         s.api = sd['api']
         s.mode = sd['mode']
@@ -341,7 +377,7 @@ def execute(plan, stats=None, check=True, want_events=True):
                 R = stp['R']
                 rt = stp.get('rt', 'nd')
                 before = len(s.cache) if s.mode == 'shared' else None
-                r_sess = _try(_call, ev, metrics, s, R, rt, 'session')
+                r_sess = _qcall(ev, metrics, s, R, rt, 'session')
                 after = len(s.cache) if s.mode == 'shared' else None
                 bump('queries')
                 if stp.get('dup'):
@@ -384,8 +420,8 @@ def execute(plan, stats=None, check=True, want_events=True):
                     cache_states.add(_cache_sig(s.cache))
                 if check:
                     # O1: refinement against the stateless self, bit-exact
-                    r_fresh = _try(_call, ev, metrics, s, R, rt, 'fresh')
-                    r_omit = _try(_call, ev, metrics, s, R, rt, 'omitted')
+                    r_fresh = _qcall(ev, metrics, s, R, rt, 'fresh')
+                    r_omit = _qcall(ev, metrics, s, R, rt, 'omitted')
                     for name, r in (('fresh', r_fresh), ('omitted', r_omit)):
                         if r[0] == 'exc':
                             raise Violation('O2', k, 'query (%s cache) raised on valid input: %s' % (name, r[1]))
@@ -411,7 +447,15 @@ def execute(plan, stats=None, check=True, want_events=True):
                 bump('mip_calls')
                 if r[0] == 'exc':
                     raise Violation('O5', k, 'mip raised on valid input: ' + r[1])
-                mv, mad = r[1]
+                try:
+                    mv, mad = r[1]
+                    if _number(mv) is None or _number(mad) is None:
+                        raise TypeError
+                except Exception:
+                    raise Violation('O5', k, 'mip did not return a pair of numbers: %r' % (r[1],))
+                if not np.array_equal(s.points, s.orig):
+                    s.points[...] = s.orig
+                    raise Violation('O5', k, 'mip changed the curve it was given')
                 events.append([k, stp['s'], 'MIP', _val(mv), _val(mad)])
                 if check:
                     _check_mip(ev, s, R, mv, mad, k)
@@ -444,9 +488,16 @@ def execute(plan, stats=None, check=True, want_events=True):
                 events.append([k, stp['s'], 'ROLLBACK', j])
             elif op == 'REFILL':
                 arr = s.points
-                if arr.dtype.kind == 'f':
-                    new_y = (arr[::-1, 1] if stp.get('flip') else arr[:, 1]) * unhex(stp['factor'])
-                    arr[:, 1] = new_y
+                if arr.dtype.kind in 'fi':
+                    fac = unhex(stp['factor'])
+                    if arr.dtype.kind == 'i':
+                        fac = int(fac) if fac >= 2 and float(fac).is_integer() else 2
+                    new_y = (arr[::-1, 1] if stp.get('flip') else arr[:, 1]) * fac
+                    if arr.dtype.kind == 'f' or np.all(np.abs(new_y) < 2 ** 40):
+                        arr[:, 1] = new_y
+                    if stp.get('shift_x'):
+                        arr[:, 0] = arr[:, 0] + (3 if arr.dtype.kind == 'i' else 2.5)      # still strictly increasing
+                    s.orig[...] = arr
                     bump('fault.REFILL')
                     if any(len(ss.cache) for ss in sessions if ss.points is arr):
                         nontrivial_fault = True
@@ -509,9 +560,9 @@ def execute(plan, stats=None, check=True, want_events=True):
 def _check_definition(s, R, v, k, bump):
     n = len(s.points)
     v = float(v)
-    pts = s.points
+    pts = s.orig
     # O3 range / identities
-    if v != v and s.api == 'cost:rmsle' and refmodel.rmsle_nan_admitted(pts, R):
+    if (v != v or math.isinf(v)) and s.api == 'cost:rmsle' and refmodel.rmsle_nan_admitted(pts, R):
         bump('ref.nan_admitted_ill_conditioned_chord')
         return        # see refmodel.rmsle_nan_admitted: no verdict on the value (O1 still compared it bit for bit)
     if not (v >= 0):
@@ -556,12 +607,12 @@ def _check_mip(ev, s, R, mv, mad, k):
     second element is the median absolute deviation of those increases.  Both are checked against intervals
     derived from the reference model only (an O(k) implementation that reorders the float operations is as
     good as the library's), using that the median is monotone in each argument."""
-    flo, fhi = refmodel.global_rmse_iv(s.points, R)
+    flo, fhi = refmodel.global_rmse_iv(s.orig, R)
     los = []
     his = []
     for i in range(1, len(R) - 1):
         Rd = R[:i] + R[i + 1:]
-        rlo, rhi = refmodel.global_rmse_iv(s.points, Rd)
+        rlo, rhi = refmodel.global_rmse_iv(s.orig, Rd)
         sl = 8 * refmodel.U * (abs(rhi) + abs(fhi)) + 1e-300
         los.append(rlo - fhi - sl)
         his.append(rhi - flo + sl)
@@ -649,9 +700,9 @@ def _grdp_step(ev, metrics, rdp, s, stp, k, events, bump, check):
     bump('o7_chain_len', len(trace))
     # the chain itself satisfies the definition
     for R, v in trace[-3:]:
-        if float(v) != float(v) and s.api == 'cost:rmsle' and refmodel.rmsle_nan_admitted(s.points, R):
+        if (float(v) != float(v) or math.isinf(float(v))) and s.api == 'cost:rmsle' and refmodel.rmsle_nan_admitted(s.orig, R):
             continue
-        lo, hi = refmodel.global_cost_iv(s.points, R, s.api.split(':')[1])
+        lo, hi = refmodel.global_cost_iv(s.orig, R, s.api.split(':')[1])
         if not (lo <= float(v) <= hi):
             raise Violation('O2', k, {'value': fhex(v), 'lo': fhex(lo), 'hi': fhex(hi), 'api': s.api, 'R': R,
                                       'via': 'grdp refinement chain'})
